@@ -26,7 +26,7 @@ PROPS = {
                     'behaviour allowed by the reader contract; recursion depth bounded by the nesting budget '
                     '(decreases MAX_NESTING_DEPTH - depth).'),
         not_decided=('serde_json (Hayson driver) and the visit_map/visit_seq impls; panics inside chrono, f64::from_str, '
-                     'get_unit (assumed none); parse_time_zone tail and parse_datetime chrono tail (trusted contracts); '
+                     'get_unit (assumed none); the chrono tail of parse_datetime (trusted contract; parse_time_zone is verified, with Duration/FixedOffset of chrono seen through their seconds); '
                      'Scanner::expect_and_consume_seq (enumerate loop, trusted); allocation failure; that '
                      'MAX_NESTING_DEPTH frames fit the native stack.'),
     ),
@@ -185,6 +185,7 @@ PROPS = {
     'C06': dict(
         title='Timestamps keep their instant and zone',
         verus=[('u_tz', [r'^is_utc$']),
+               ('u_zparse', [r'^parse_time_zone$', r'^parse_time_zone_name$']),
                ('u_enc', [r'^DateTime::to_zinc$']),
                ('u_jenc', [r'^DateTime::serialize$']),
                ('u_capi', [r'^haystack_value_get_datetime_date$', r'^haystack_value_get_datetime_time$'])],
@@ -195,7 +196,9 @@ PROPS = {
                     'property that is libhaystack\'s own code: fixed_timezone maps an RFC 3339 offset to the zone UTC exactly when the offset is '
                     'zero, so no non-zero offset is silently read as UTC. Proof (Verus) of the glue around chrono: is_utc holds exactly when the zone '
                     'of the timestamp is the UTC zone (not when its offset merely happens to be zero); the Zinc writer appends the zone name and the '
-                    'Hayson writer the tz member exactly when is_utc is false; the C getters return the UTC or the local date / time as their flag asks.'),
+                    'Hayson writer the tz member exactly when is_utc is false; the C getters return the UTC or the local date / time as their flag asks; '
+                    'the Zinc reader parse_time_zone, on its real body, turns the offset text +HH:MM / -HH:MM into FixedOffset::east_opt / west_opt of exactly '
+                    'HH*3600 + MM*60 seconds (each of the six bytes validated, string slices proved in range), and yields no fixed offset for Z.'),
         not_decided=('Everything inside chrono/chrono_tz (RFC 3339 parsing, zone database, DST resolution, with_timezone) -- which is where '
                      '"both sides of every DST transition, all ~600 zones" lives; that the Etc/GMT name carries both hour digits and that '
                      'offsets with minutes are rejected (the name goes through format!, which CBMC does not finish: 15 min for the full '
@@ -243,7 +246,7 @@ PROPS = {
     ),
     'C04': dict(
         title='Zinc text conforms to the Project Haystack grammar in both directions',
-        verus=[('u_zparse', [r'^parse_str_escape$', r'^parse_str_unicode_escape$', r'^parse_str$', r'^Lexer::read$', r'^parse_literal$', r'^parse_id$', r'^lemma_lit_run_bytes$', r'^parse_unit$', r'^is_unit_char$', r'^parse_uri$']),
+        verus=[('u_zparse', [r'^parse_str_escape$', r'^parse_str_unicode_escape$', r'^parse_str$', r'^Lexer::read$', r'^parse_literal$', r'^parse_id$', r'^lemma_lit_run_bytes$', r'^parse_unit$', r'^is_unit_char$', r'^parse_uri$', r'^parse_time_zone$']),
                ('u_enc', [r'^write_quoted_str$', r'^write_str$', r'::to_zinc$', r'::zinc_encode$', r'^list_to_zinc$', r'^write_dict_tags$', r'^Column::to_zinc$', r'^Dict::to_zinc$', r'^Grid::to_zinc$', r'^Value::to_zinc$', r'^lemma_ver_line$', r'^enc_(value|items|tag|tags|meta|col|cols|cells|rows|grid)$', r'^grid_head$', r'^grid_mid$', r'^dict_find$'])],
         kani=[dict(harness='k_scanner_classes', klass='complete', schema=['u8'], family=None, target='Scanner::is_* byte classes'),
               dict(harness='k_unit_char_class', klass='complete', schema=['u8'], family=None, target='zinc number::is_unit_char'),
